@@ -145,8 +145,18 @@ func (p *Parser) Close() {
 	p.close <- true
 }
 
+// WaitClose blocks until the parser has stopped. Sequences nobody has
+// collected by then are discarded: the parser hands them over on a channel,
+// and a consumer that is itself waiting here (or has gone away) would otherwise
+// keep the parser from ever seeing the close request
 func (p *Parser) WaitClose() {
-	<-p.closed
+	for {
+		select {
+		case <-p.closed:
+			return
+		case <-p.sequences:
+		}
+	}
 }
 
 func (p *Parser) readRune() rune {
